@@ -393,6 +393,23 @@ func cmdCheck(args []string) int {
 					}
 				}
 			}
+			// labels starting with "w:" ask for a native replay of one path each (model validation:
+			// e.g. every entry of a menu of texts goes through the real codec once per run)
+			var wl []string
+			for c := range res.CoverSamples {
+				if strings.HasPrefix(c, "w:") {
+					wl = append(wl, c)
+				}
+			}
+			sort.Strings(wl)
+			for _, c := range wl {
+				o := res.CoverSamples[c]
+				sig := fmt.Sprint(sym.ConcreteDraws(o.Draws, o.Model))
+				if !seen[sig] {
+					seen[sig] = true
+					addEntry(o, "w")
+				}
+			}
 			for _, o := range res.Samples {
 				sig := fmt.Sprint(sym.ConcreteDraws(o.Draws, o.Model))
 				if !seen[sig] {
